@@ -40,7 +40,13 @@ def _port(rng, k):
         # foreign devices, some of whose descriptions begin with (or are) a name that a board in the list may carry
         desc = rng.choice(["Bluetooth-Incoming-Port", "n/a", "USB Serial Device (%s)" % dev, "Arduino Uno", "eibotboard", "My EiBotBoard",
                            nm + "s Controller", nm, nm + " Serial", nm.upper() + "-Link", "Axis Controller", "Bottle Filler", "Eastern Modem"])
-        hw = rng.choice(["n/a", "USB VID:PID=2341:0043 SER=%s LOCATION=1-3" % rng.choice(TAGS), "USB VID:PID=04D8:FD93", "PCI\\VEN_8086"])
+        hw = rng.choice(["n/a", "USB VID:PID=2341:0043 SER=%s LOCATION=1-3" % rng.choice(TAGS), "USB VID:PID=04D8:FD93", "PCI\\VEN_8086",
+                         # near misses of the board's hardware id: the test is a case-sensitive prefix test, nothing more and nothing less
+                         "USB VID:PID=04d8:fd92 SER=%s" % rng.choice(TAGS), "USB VID:PID=004D8:FD92", " USB VID:PID=04D8:FD92", "usb vid:pid=04D8:FD92",
+                         "USB VID:PID=04D8:FD9", "USB VID:PID=04D8:0FD92 LOCATION=1-1"])
+    if kind >= 0.3 and kind < 0.7 and rng.random() < 0.12:
+        # ... and ids that go on after the prefix without a blank (a longer product id, a composite-device suffix)
+        hw = rng.choice(["USB VID:PID=04D8:FD92A SER=%s LOCATION=1-%d" % (rng.choice(TAGS), k), "USB VID:PID=04D8:FD921", "USB VID:PID=04D8:FD92:0 LOCATION=1-%d" % k])
     return (dev, desc, hw)
 
 def _variant(rng, s):
